@@ -183,7 +183,7 @@ theorem sim_fold_none (pfuel : Nat) : ∀ (cs : List Chunk) (S : St) (st : LoopS
     cases hstep : stepChunk S c with
     | some S1 =>
       simp only [hstep] at hfold
-      obtain ⟨n1, st1, s1, hinv1, hlen1, hrun1⟩ := stepSim_core pfuel c hc S S1 (render cs) st s hinv hstep
+      obtain ⟨n1, st1, s1, hinv1, hlen1, hrun1⟩ := stepSim_core pfuel c hc S S1 (render cs) st s hp hinv hstep
       have := ih S1 st1 s1 (fun d hd => hcore d (List.mem_cons_of_mem _ hd)) hinv1 hfold (by omega) (fuel - n1) (by omega)
       rw [show fuel = (fuel - n1) + n1 by omega, hrun1]
       exact this
